@@ -34,6 +34,9 @@ RESP_LINE = b'{"jsonrpc":"2.0","id":"q1","result":{"tools":[]}}\n'
 NOTE_LINE = b'{"jsonrpc":"2.0","method":"notifications/message","params":{"data":"flood"}}\n'
 
 
+GROUP_EXITS = ["exception-group", "exception-group-cancel-scope-text", "exception-cancel-scope-text", "exception-group-json-text"]
+
+
 class _BodyError(Exception):
     pass
 
@@ -143,7 +146,7 @@ def run_one(ctl: explorer.Ctl, cfg: Dict[str, Any]) -> Dict[str, Any]:
         if mo == "before-first":
             pass
         elif mo == "in-flight":
-            if ex in ("normal", "exception", "scope-cancel-during-exit", "exception-then-scope-cancel-during-exit"):
+            if ex in ("normal", "exception", "scope-cancel-during-exit", "exception-then-scope-cancel-during-exit") or ex in GROUP_EXITS:
                 await write.send(dict(REQ))
                 await q.settle()
             else:
@@ -158,6 +161,17 @@ def run_one(ctl: explorer.Ctl, cfg: Dict[str, Any]) -> Dict[str, Any]:
         if ex in ("exception", "exception-then-scope-cancel-during-exit"):
             info["t_exit_begin"] = loop.time()
             raise _BodyError("body failed")
+        if ex in GROUP_EXITS:
+            # what a body that runs its own task group raises; the wrappers treat groups and 'cancel scope' texts specially
+            info["t_exit_begin"] = loop.time()
+            if ex == "exception-group":
+                raise ExceptionGroup("body tasks failed", [_BodyError("body failed"), ValueError("second")])
+            if ex == "exception-group-cancel-scope-text":
+                raise ExceptionGroup("body tasks failed", [RuntimeError("Attempted to exit cancel scope in a different task")])
+            if ex == "exception-cancel-scope-text":
+                raise RuntimeError("Attempted to exit cancel scope in a different task than it was entered in")
+            if ex == "exception-group-json-text":
+                raise ExceptionGroup("body tasks failed", [TypeError("the JSON object must be str, bytes or bytearray, not dict")])
         if ex in ("task-cancel", "scope-cancel", "fail-after"):
             info["blocked_in_sleep"] = True
             await asyncio.sleep(3600)
@@ -220,7 +234,7 @@ def run_one(ctl: explorer.Ctl, cfg: Dict[str, Any]) -> Dict[str, Any]:
         t0 = loop.time()
         outcome = None
         try:
-            if ex in ("normal", "exception"):
+            if ex in ("normal", "exception") or ex in GROUP_EXITS:
                 await use_client()
             elif ex == "task-cancel":
                 t = asyncio.ensure_future(use_client())
@@ -337,8 +351,9 @@ def run_one(ctl: explorer.Ctl, cfg: Dict[str, Any]) -> Dict[str, Any]:
             "scope-cancel": "scope-cancelled", "fail-after": "timeout-propagated",
             "scope-cancel-during-exit": "left-under-cancel", "scope-cancel-at-spawn": "left-under-cancel",
             "scope-cancel-during-spawn": "left-under-cancel",
-            "exception-then-scope-cancel-during-exit": "left-under-cancel"}[ex]
-    if info["outcome"] != want:
+            "exception-then-scope-cancel-during-exit": "left-under-cancel"}.get(ex)
+    # (how a group / a 'cancel scope' text raised by the body leaves the wrapper is not part of the statement: only the clean-up is judged)
+    if want is not None and info["outcome"] != want:
         bad("wrong-exit-outcome", f"context exit ended with {info['outcome']!r}, expected {want!r}")
     # 3. child gone: either it has exited, or both signals were delivered in order with the grace period
     names = [c[0] for c in calls]
@@ -481,6 +496,18 @@ def configs_for(tier: str):
                 for during in (0.0, 0.25, 0.5, 1.0 - EPS, 1.0, 1.0 + EPS, 1.5):
                     for o in ("fifo", "lifo"):
                         base.append({"behaviour": b, "exit": e, "moment": m, "order": o, "during": during})
+    # the body fails with an exception group (its own task group) or with a 'cancel scope' / JSON text the wrappers treat specially
+    for entry in (None, "transport", "with_initialize", "reuse-client", "connect_to_server"):
+        for b in ("well", "ignore-term", "ignore-both", "stdout-flood", "stdin-blocks", "exit-on-request"):
+            if entry in ("with_initialize", "connect_to_server") and b == "stdin-blocks":
+                continue
+            for e in GROUP_EXITS:
+                for m in MOMENTS:
+                    for o in ("fifo", "lifo"):
+                        c = {"behaviour": b, "exit": e, "moment": m, "order": o}
+                        if entry:
+                            c["entry"] = entry
+                        base.append(c)
     return base, timing
 
 
